@@ -824,6 +824,30 @@ Proof.
     unfold inst_rangeb in Hi. b2p. congruence.
 Qed.
 
+(** * On constructor-valid objects (all that bytes parse to) the only post-constructor
+    errors are the SMPTE / zero division and a denominator above INT32_MAX. *)
+Theorem convert_error_iff_constructible m :
+  pm_ctorb m = true -> pm_invb m = true ->
+  (convert m = Err MIDIConversionError <->
+   pm_res m <= 0 \/ existsb (fun t => INT32_MAX <? pt_den t) (pm_tsigs m) = true).
+Proof.
+  intros Hc Hinv. rewrite (convert_error_iff m Hinv).
+  unfold pm_ctorb in Hc. apply andb_prop in Hc. destruct Hc as [Hc _]. apply andb_prop in Hc. destruct Hc as [Ht Hk].
+  assert (Bm : bad_mode m = false).
+  { apply bad_mode_false_when_0_23. rewrite forallb_forall in *. intros k Hin. specialize (Hk k Hin).
+    apply andb_prop in Hk. destruct Hk as [Hk _]. exact Hk. }
+  assert (Ed : den_overflows m = existsb (fun t => INT32_MAX <? pt_den t) (pm_tsigs m)).
+  { unfold den_overflows. rewrite forallb_forall in Ht. apply eq_true_iff_eq.
+    rewrite !existsb_exists. split; intros [t [Hin Hx]]; exists t; (split; [assumption|]);
+      specialize (Ht t Hin); apply andb_prop in Ht; destruct Ht as [Ht _]; apply andb_prop in Ht; destruct Ht as [_ Hd];
+      apply Z.leb_le in Hd.
+    - apply negb_true_iff in Hx. unfold int32_ok in Hx. apply andb_false_iff in Hx. apply Z.ltb_lt.
+      destruct Hx as [Hx|Hx]; [apply Z.leb_gt in Hx; unfold INT32_MIN in Hx; lia | apply Z.leb_gt in Hx; lia].
+    - apply Z.ltb_lt in Hx. apply negb_true_iff. unfold int32_ok. apply andb_false_iff. right. apply Z.leb_gt. lia. }
+  rewrite Bm, Ed. split; [intros [H|[H|H]]; [left; assumption | right; assumption | discriminate]
+                        | intros [H|H]; [left; assumption | right; left; assumption]].
+Qed.
+
 (** * The boolean well-formedness used by the runner is implied by [c16_wf] *)
 Lemma c16_wf_wfb c : c16_wf c -> c16_wfb c = true.
 Proof.
